@@ -186,13 +186,15 @@ impl<'a> SrcEval<'a> {
             SrcSpec::Linear { stops, .. } | SrcSpec::Radial { stops, .. } | SrcSpec::Sweep { stops, .. } | SrcSpec::LinearRaw { stops, .. } | SrcSpec::RadialRaw { stops, .. } => {
                 // constant gradients only, and only at alpha 1 (alpha handling of gradient
                 // colour tables is C12's subject)
-                if self.ab == 255 && !stops.is_empty() && stops.iter().all(|s| s.color == stops[0].color) {
+                // (at a global alpha below 1 the colour-table entry - the premultiplied stop colour - is
+                // scaled like every other source colour)
+                if !stops.is_empty() && stops.iter().all(|s| s.color == stops[0].color) {
                     if let SrcSpec::Linear { p, .. } = self.spec {
                         if p[0] == p[2] && p[1] == p[3] {
                             return None;
                         }
                     }
-                    Some(premultiply(stops[0].color))
+                    Some(pix::scale(premultiply(stops[0].color), self.ab))
                 } else {
                     None
                 }
